@@ -145,6 +145,7 @@ def rsl_range(ctx, R):
             raise AnalysisError("C01.RSL: no limit taken from the peer's record_size_limit in " + fname)
         aborts = {v: False for v in dom}
         gates = []
+        none_refused, numeric = [], []
         for t in g.nodes:
             if t.kind != "test" or t.expr is None or not mentions(t.expr, E):
                 continue
@@ -155,10 +156,27 @@ def rsl_range(ctx, R):
                 vals = {v: bool(ev(t.expr, {E: v, S: 2 ** 14, "settings.record_size_limit is None": False})) for v in dom}
             except (Unknown, TypeError):
                 continue
+            # an empty extension payload parses to None: it must be refused before any numeric comparison
+            try:
+                vn = bool(ev(t.expr, {E: None, S: 2 ** 14}))
+                if ("T" in dl and vn) or ("F" in dl and not vn):
+                    none_refused.append(t)
+            except TypeError:
+                numeric.append(t)
+            except Unknown:
+                pass
             gates.append(t)
             for v in dom:
                 if ("T" in dl and vals[v]) or ("F" in dl and not vals[v]):
                     aborts[v] = True
+        if numeric:
+            first = min(numeric, key=lambda t: t.line)
+            seen_nr = g.reach([g.entry], blocked=none_refused)
+            ctx.check(R, bool(none_refused) and first.id not in seen_nr, fi.qname,
+                      "an absent record_size_limit value (None) is refused before it is compared with numbers",
+                      "`%s` compares the peer's record_size_limit with numbers on a path where it can still be None "
+                      "(empty extension payload): TypeError instead of decode_error" % norm(first.expr),
+                      fi.loc(first.ast), what="%s none" % fi.short)
         wrong = [v for v in dom if aborts[v] != spec(v)]
         ctx.check(R, not wrong, fi.qname, "peer's record_size_limit refused when " + words,
                   "the peer's record_size_limit must be refused exactly when it is %s before a limit is derived from "
